@@ -49,6 +49,15 @@ def run(ctx):
         ctx.violation("state", {"what": "final variables / stacks / scan_count / match_count differ from the values the csvpath assigns line by line (CORE model)", "case": core.describe(jobs[other[0]], res[other[0]]),
                                 "more": [core.describe(jobs[i], res[i]) for i in other[1:4]], "cases": len(other)})
     nontriv = {o["text"] + repr(j[1]) for j, o in zip(jobs, res) if not o["exc"] and any(isinstance(v, list) and len(set(map(repr, v))) >= 2 for v in o["vars"].values())}
+    # the translator tie: Equality's assignment decision as written in the source of the tree under test, regenerated and (when the text
+    # differs from the checked-in Match/AsgSrc.v) re-proved equal to the model
+    import srctie
+    tie = srctie.check(ctx, "assign")
+    if tie["status"] in ("untranslatable", "unproved") and not ctx.violations:
+        ctx.violation("source-tie", {"what": "the translation of Equality._do_assignment_new_impl / _latch_and_onchange / _set_variable_if from csvpath/matching/productions/equality.py is no longer "
+                                             "proved equal to the model: theorem do_assignment_src_eq (C14_source; C03_assign_q_step and C03_assign_qk_step rest on the same decision function) does not check against the source of this tree; "
+                                             "the generated cases of this run found no input on which the property fails",
+                                     "theorem": "do_assignment_src_eq (C14_source; C03_assign_q_step and C03_assign_qk_step rest on the same decision function)", "tie": tie}, no_input=True)
     ctx.coverage.update({
         "evaluations": len(jobs), "distinct_nontrivial": len(nontriv),
         "rule": "the typed CORE generator of C01 (see its rule): 30% of components are tally(#h)/first.n(#h)/every.n(#h,k)/counter.n(k)/sum.n(e)/subtotal.n(#h,e)/@d.key = e (also as when/do actions), count() and @d.key "
@@ -62,6 +71,7 @@ def run(ctx):
         "traces_validated_against_impl": len(jobs) - len(clean_bad),
         "correspondence": f"clean CORE model == implementation on {len(jobs) - len(clean_bad)}/{len(jobs)} runs; explained by pop: {len(d4)}, strcmp: {len(d2)}, lt: {len(d1)}, unexplained: {len(other)}",
     })
+    ctx.coverage["source_tie"] = {"status": tie["status"], "detail": tie["detail"][:400]}
 
 
 def replay(ctx, payload):
